@@ -76,6 +76,7 @@ Inductive err :=
 | EFail (n : name)                       (* the loader of n raised *)
 | EConflict (n : name)                   (* "name conflict for module" *)
 | EModGo                                 (* module() called from a Go function *)
+| ENoPackage                             (* PreloadModule before the package library is open *)
 | EOther.                                (* never produced by the models *)
 
 Inductive result := Ok (v : value) | Err (e : err) | OutOfFuel.
@@ -438,4 +439,51 @@ Fixpoint links (s : state) (ns : list name) (last : name) : Prop :=
   | n :: r =>
     (exists o k rest, search loLoaders s n [] = inr (o, k, Require (hd last r) :: rest)) /\
     links s r last
+  end.
+
+(* ---------- host initialisation in any order (lua.Options{SkipOpenLibs:true}) ---------- *)
+(* reserved names: the harness maps them to "package", "string", "table" *)
+Definition PKG : name := 10.
+Definition LSTRING : name := 11.
+Definition LTABLE : name := 12.
+
+Inductive iop :=
+| IOpenBase                              (* OpenBase: makes require/module/pcall available *)
+| IOpenPackage                           (* loadlib.go:OpenPackage *)
+| IOpenLib (n : name)                    (* OpenString / OpenTable = RegisterModule(n, funcs) *)
+| IRegister (n : name) (fs : list Z)     (* L.RegisterModule by the host *)
+| IPreload (n : name) (l : loader).      (* L.PreloadModule by the host *)
+
+(* OpenPackage: RegisterModule("package"); a new package.preload; package.loaded IS the registry's
+   _LOADED table, with everything registered so far; package.path set (the harness sets it to
+   directories 0;1 right away) *)
+Definition open_package (s : state) : state * result :=
+  let '(s1, r) := register s PKG [] in
+  match r with
+  | Ok t => (mkState (loaded s1) (fun _ => None) (files s1) [0; 1] (globals s1) (log s1) (next s1)
+                     (tfuncs s1), Ok t)
+  | _ => (s1, r)
+  end.
+
+(* the state and whether the package library is open *)
+Definition istep (sb : state * bool) (o : iop) : (state * bool) * obs :=
+  let '(s, b) := sb in
+  match o with
+  | IOpenBase => (sb, ONone)
+  | IOpenPackage =>
+    let '(s', r) := open_package s in
+    ((s', match r with Ok _ => true | _ => b end), OReg r (funcs_of s' r))
+  | IOpenLib n => let '(s', r) := register s n [] in ((s', b), OReg r (funcs_of s' r))
+  | IRegister n fs => let '(s', r) := register s n fs in ((s', b), OReg r (funcs_of s' r))
+  | IPreload n l =>
+    if b then ((set_preload s n (Some l), b), ONone) else (sb, ORes (Err ENoPackage) [])
+  end.
+
+Fixpoint irun (sb : state * bool) (i : list iop) : (state * bool) * list obs :=
+  match i with
+  | [] => (sb, [])
+  | o :: r =>
+    let '(sb1, ob) := istep sb o in
+    let '(sb2, obs) := irun sb1 r in
+    (sb2, ob :: obs)
   end.
